@@ -1,6 +1,8 @@
 // Codec operations on the eleven blob types plus zlib_uncompress.
 #include <functional>
 
+#include <zlib.h>
+
 #include "common.hpp"
 
 #include "djinterop/engine/encode_decode_utils.hpp"
@@ -297,6 +299,24 @@ static void take_flags(json& r)
     g_shim.inflate_calls = 0;
 }
 
+// Harness-side container (4-byte big-endian length + zlib stream), built with
+// zlib's own compress(), never with the library's zlib_compress().
+static std::string harness_wrap(const std::string& payload)
+{
+    uLongf bound = compressBound(payload.size());
+    std::string out;
+    out.resize(4 + bound);
+    uint32_t n = (uint32_t)payload.size();
+    out[0] = (char)(n >> 24);
+    out[1] = (char)(n >> 16);
+    out[2] = (char)(n >> 8);
+    out[3] = (char)n;
+    if (compress2((Bytef*)&out[4], &bound, (const Bytef*)payload.data(), payload.size(), 1) != Z_OK)
+        throw harness_error("compress2 failed");
+    out.resize(4 + bound);
+    return out;
+}
+
 static std::vector<std::byte> exact_copy(const std::string& raw)
 {
     // exactly-sized heap allocation: the red zone sits directly behind the last byte
@@ -305,9 +325,10 @@ static std::vector<std::byte> exact_copy(const std::string& raw)
     return v;
 }
 
+static long long g_seq = 0;  // index of the input within the current op (for resuming after a death)
 static const char* run_decode_compact(const Codec& c, const std::string& kind, const std::string& raw, json* detail)
 {
-    witness_set(kind.c_str(), raw.data(), raw.size());
+    witness_set((kind + "#" + std::to_string(g_seq)).c_str(), raw.data(), raw.size());
     const char* out;
     try
     {
@@ -405,9 +426,15 @@ bool dispatch_codec(State& st, const std::string& op, const json& a, json& ret)
         std::map<std::string, long long> exc;
         json bad = json::array();
         long long idx = 0;
+        bool wrap = a.value("wrap", false);
+        long long skip = a.value("skip", 0LL);
+        g_seq = -1;
         for (auto& h : a.at("inputs"))
         {
+            ++g_seq;
+            if (g_seq < skip) { ++idx; continue; }
             auto raw = js(h);
+            if (wrap) raw = harness_wrap(raw);
             json detail;
             const char* o = run_decode_compact(it->second, kind, raw, &detail);
             ++n;
@@ -431,6 +458,82 @@ bool dispatch_codec(State& st, const std::string& op, const json& a, json& ret)
         ret["bad"] = bad;
         return true;
     }
+    if (op == "decode_mut")
+    {
+        // systematic mutations of one base input, generated here to keep the
+        // case files small: every truncation, or every single-byte
+        // substitution with 8 values; optionally of the payload, wrapped in a
+        // valid container by the harness.
+        auto kind = a.at("kind").get<std::string>();
+        auto it = codecs().find(kind);
+        if (it == codecs().end()) throw harness_error("unknown codec kind " + kind);
+        std::string base = js(a.at("base"));
+        bool wrap = a.value("wrap", false);
+        auto mode = a.at("mode").get<std::string>();
+        long long n = 0, ok = 0;
+        std::map<std::string, long long> exc;
+        json bad = json::array();
+        long long skip = a.value("skip", 0LL);
+        g_seq = -1;
+        auto one = [&](const std::string& m) {
+            ++g_seq;
+            if (g_seq < skip) return;
+            std::string raw = wrap ? harness_wrap(m) : m;
+            json detail;
+            const char* o = run_decode_compact(it->second, kind, raw, &detail);
+            ++n;
+            json flags = json::object();
+            take_flags(flags);
+            if (!strcmp(o, "ok"))
+                ++ok;
+            else if (!strcmp(o, "exc"))
+                ++exc[detail["exc"].get<std::string>()];
+            if (!strcmp(o, "nonstd") || !flags.empty())
+            {
+                flags["input"] = hex_of(raw);
+                flags["outcome"] = o;
+                if (bad.size() < 50) bad.push_back(flags);
+            }
+        };
+        if (mode == "trunc")
+        {
+            for (size_t k = 0; k <= base.size(); ++k) one(base.substr(0, k));
+        }
+        else if (mode == "subst")
+        {
+            for (size_t k = 0; k < base.size(); ++k)
+            {
+                unsigned char b = (unsigned char)base[k];
+                unsigned char vals[8] = {0x00, 0x01, 0x7f, 0x80, 0xff, (unsigned char)(b ^ 1), (unsigned char)(b ^ 0x80), (unsigned char)(b + 1)};
+                for (unsigned char v : vals)
+                {
+                    if (v == b) continue;
+                    std::string m = base;
+                    m[k] = (char)v;
+                    one(m);
+                }
+            }
+        }
+        else if (mode == "insert_delete")
+        {
+            for (size_t k = 0; k < base.size(); ++k)
+            {
+                std::string m = base;
+                m.erase(k, 1);
+                one(m);
+                std::string m2 = base;
+                m2.insert(k, 1, '\0');
+                one(m2);
+            }
+        }
+        else
+            throw harness_error("unknown mutation mode");
+        ret["n"] = n;
+        ret["ok"] = ok;
+        ret["exc"] = exc;
+        ret["bad"] = bad;
+        return true;
+    }
     if (op == "decode_enum")
     {
         // exhaustive enumeration of all strings of length `len` over `alphabet`
@@ -444,15 +547,27 @@ bool dispatch_codec(State& st, const std::string& op, const json& a, json& ret)
             for (int i = 0; i < 256; ++i) alpha.push_back((char)i);
         std::string prefix = js(a.value("prefix", std::string{}));
         std::string suffix = js(a.value("suffix", std::string{}));
+        bool wrap = a.value("wrap", false);
+        long long skip = a.value("skip", 0LL);
+        g_seq = -1;
         std::vector<int> idx(len, 0);
         long long n = 0, ok = 0;
         std::map<std::string, long long> exc;
         json bad = json::array();
         for (;;)
         {
+            ++g_seq;
+            if (g_seq < skip)
+            {
+                int p0 = len - 1;
+                while (p0 >= 0 && ++idx[p0] == (int)alpha.size()) idx[p0--] = 0;
+                if (p0 < 0) break;
+                continue;
+            }
             std::string raw = prefix;
             for (int i = 0; i < len; ++i) raw.push_back(alpha[idx[i]]);
             raw += suffix;
+            if (wrap) raw = harness_wrap(raw);
             json detail;
             const char* o = run_decode_compact(it->second, kind, raw, &detail);
             ++n;
